@@ -23,18 +23,21 @@ var durationType = reflect.TypeOf(time.Duration(0))
 // non-empty, otherwise it is also UTC but the caller's interpretation may
 // treat it as naive.
 func timestampToTime(v int64, ts *arrow.TimestampType) time.Time {
-	var d time.Duration
+	// Build the instant from whole seconds plus a sub-second remainder. Scaling
+	// v to nanoseconds first (time.Duration(v) * unit) overflows int64 outside
+	// 1677..2262, while every Arrow timestamp unit can carry instants far
+	// beyond that range.
 	switch ts.Unit {
 	case arrow.Second:
-		d = time.Duration(v) * time.Second
+		return time.Unix(v, 0).UTC()
 	case arrow.Millisecond:
-		d = time.Duration(v) * time.Millisecond
+		return time.UnixMilli(v).UTC()
 	case arrow.Microsecond:
-		d = time.Duration(v) * time.Microsecond
+		return time.UnixMicro(v).UTC()
 	case arrow.Nanosecond:
-		d = time.Duration(v)
+		return time.Unix(0, v).UTC()
 	}
-	return time.Unix(0, 0).UTC().Add(d)
+	return time.Unix(0, 0).UTC()
 }
 
 func setTimeField(field reflect.Value, fieldType reflect.Type, isPtr bool, val time.Time) {
